@@ -40,6 +40,35 @@ Theorem norm_keeps_digits : norm_keeps_digits_stmt.
 Proof. exact MatrixSpec.norm_keeps_digits. Qed.
 Print Assumptions norm_keeps_digits.
 
+(* ---- one format in full: the electron section of the NWChem writer / reader pair (Model/Nwchem.v, compared with
+   writers/nwchem.py and readers/nwchem.py on every run).  For every well-formed input (nw_ok: 1 <= Z <= 118 pairwise distinct,
+   every shell with primitives, momenta 0..24, rectangular coefficient rows, one row per momentum for combined shells, number
+   strings that the reader's own pattern accepts) reading back what was written returns exactly the same elements, shells,
+   momenta and number strings (only the exponent marker is normalised), with the function type the format implies. ---- *)
+From BSE Require Import Model.Nwchem Proofs.NwchemDefs.
+From BSE Require Proofs.NwchemSpec.
+
+Theorem nwchem_write_total : nw_write_total_stmt.
+Proof. exact NwchemSpec.nw_write_total. Qed.
+Print Assumptions nwchem_write_total.
+
+Theorem nwchem_roundtrip : nw_roundtrip_stmt.
+Proof. exact NwchemSpec.nw_roundtrip_exact. Qed.
+Print Assumptions nwchem_roundtrip.
+
+Theorem nwchem_no_number_lost : nw_no_number_lost_stmt.
+Proof. exact NwchemSpec.nw_no_number_lost. Qed.
+Print Assumptions nwchem_no_number_lost.
+
+(* the conditions of nw_ok are needed: an empty basis, an element without shells and a combined shell with the wrong number
+   of coefficient rows do not round-trip (each reproduced on the implementation) *)
+Theorem nwchem_roundtrip_needs_shells : nw_roundtrip_noshell_stmt.
+Proof. exact NwchemSpec.nw_roundtrip_noshell. Qed.
+Print Assumptions nwchem_roundtrip_needs_shells.
+
+Example nwchem_example : nw_example_stmt.
+Proof. exact NwchemSpec.nw_example. Qed.
+
 Example roundtrip_demo :
   match write_matrix [[CStr "130.70932"; CStr "0.5"]; [CStr "1.5E-01"; CStr "-0.25"]] [8; 31]%Z true with
   | inr t => parse_primitive_matrix (splitlines t) = inr (["130.70932"; "0.5"], [["1.5E-01"; "-0.25"]])
